@@ -96,3 +96,65 @@ Theorem ffp_prefix_writes_past_span :
   ffp_prefix 233 7 3 [120] = UB OutOfBounds /\ ffp_m 233 7 3 [120] = Ok ([120], 1, Some 0)
   /\ ffp_m 233 7 3 [1; 1; 1; 1; 1; 1; 1; 1] = Ok ([50; 51; 51; 46; 48; 48; 55; 0], 0, Some 3).
 Proof. repeat split; vm_compute; reflexivity. Qed.
+
+(** * what is written: exactly the text and its terminator, the rest of the span untouched *)
+Lemma wr_mid : forall pre old post c, wr (pre ++ old :: post) (length pre) c = Ok (pre ++ c :: post).
+Proof. intros pre old post c. unfold wr. rewrite Arr.set_mid. reflexivity. Qed.
+
+Lemma store_content : forall cs pre old post, length old = length cs ->
+  store (pre ++ old ++ post) (length pre) cs = Ok (pre ++ cs ++ post).
+Proof.
+  induction cs as [|c t IH]; intros pre old post H.
+  - destruct old; [reflexivity|discriminate].
+  - destruct old as [|o old']; [discriminate|]. cbn [length] in H. cbn [store app].
+    rewrite wr_mid. cbn [rbind].
+    replace (pre ++ c :: old' ++ post) with ((pre ++ [c]) ++ old' ++ post) by (rewrite <- app_assoc; reflexivity).
+    replace (S (length pre)) with (length (pre ++ [c])) by (rewrite app_length; cbn [length]; lia).
+    rewrite IH by lia. rewrite <- app_assoc. reflexivity.
+Qed.
+
+Lemma store_at : forall cs pre rest, (length cs <= length rest)%nat ->
+  store (pre ++ rest) (length pre) cs = Ok (pre ++ cs ++ skipn (length cs) rest).
+Proof.
+  intros cs pre rest H.
+  assert (E : rest = firstn (length cs) rest ++ skipn (length cs) rest) by (symmetry; apply firstn_skipn).
+  assert (L : length (firstn (length cs) rest) = length cs) by (apply firstn_length_le; exact H).
+  set (a := firstn (length cs) rest) in *. set (b := skipn (length cs) rest) in *.
+  rewrite E. apply store_content. exact L.
+Qed.
+
+Theorem ffp_writes_text : forall whole part precision buf txt w, 0 <= whole -> 0 <= part -> 0 <= precision ->
+  ffp_text whole part precision = Some txt -> to_string_chars whole 0 = Some w ->
+  (length txt + 1 <= length buf)%nat ->
+  ffp_m whole part precision buf
+  = Ok (txt ++ 0 :: skipn (length txt + 1) buf, 0, if precision =? 0 then None else Some (Z.of_nat (length w))).
+Proof.
+  intros whole part precision buf txt w Hw Hp Hpr Ht Cw Hfit.
+  destruct (digits_rev_total whole Hw) as (dw & Ew). destruct (digits_rev_total part Hp) as (dp & Ep).
+  destruct (chars_length whole 0 dw ltac:(lia) Ew) as (cw & Cw' & Nw). rewrite Cw in Cw'. inversion Cw'; subst cw. clear Cw'.
+  destruct (chars_length part precision dp Hpr Ep) as (cp & Cp & Np).
+  unfold ffp_text in Ht. rewrite Cw, Cp in Ht. unfold ffp_m. rewrite Nw, Np.
+  assert (S0 : forall cs, (length cs <= length buf)%nat -> store buf 0 cs = Ok (cs ++ skipn (length cs) buf)).
+  { intros cs H. exact (store_at cs [] buf H). }
+  destruct (precision =? 0) eqn:E0.
+  - inversion Ht; subst txt. clear Ht.
+    assert (G : (Z.of_nat (length w) + 0 + 1 >? Z.of_nat (length buf)) = false) by lia. rewrite G.
+    unfold ffp_body, to_string_m. rewrite Cw.
+    rewrite S0 by (rewrite app_length; cbn [length]; lia).
+    cbn [rbind]. rewrite E0. rewrite app_length. cbn [length]. rewrite <- app_assoc. reflexivity.
+  - inversion Ht; subst txt. clear Ht. rewrite app_length in Hfit. cbn [length] in Hfit.
+    assert (G : (Z.of_nat (length w) + (1 + Z.of_nat (length cp)) + 1 >? Z.of_nat (length buf)) = false) by lia. rewrite G.
+    unfold ffp_body, to_string_m. rewrite Cw.
+    rewrite S0 by (rewrite app_length; cbn [length]; lia).
+    cbn [rbind]. rewrite E0. rewrite app_length. cbn [length].
+    set (rest := skipn (length w + 1) buf).
+    assert (Hrest : length rest = (length buf - (length w + 1))%nat) by (unfold rest; apply skipn_length).
+    rewrite <- app_assoc. cbn [app]. rewrite wr_mid. cbn [rbind]. rewrite Cp.
+    replace (w ++ 46 :: rest) with ((w ++ [46]) ++ rest) by (rewrite <- app_assoc; reflexivity).
+    replace (S (length w)) with (length (w ++ [46])) by (rewrite app_length; cbn [length]; lia).
+    rewrite store_at by (rewrite app_length; cbn [length]; lia).
+    cbn [rbind fst]. f_equal. f_equal. f_equal.
+    unfold rest. rewrite skipn_skipn. rewrite <- !app_assoc. cbn [app]. rewrite !app_length. cbn [length].
+    replace (length cp + 1 + (length w + 1))%nat with (length w + S (length cp) + 1)%nat by lia.
+    reflexivity.
+Qed.
